@@ -41,9 +41,37 @@ def sub(lines, idx, new):
     return r
 
 
-def programs():
+def variant_bases(rnd):
+    """Randomly generated well-formed base definitions with the same line
+    layout as B1 / B2 / B3 (so every defect class applies unchanged)."""
+    syms = ["x", "µx", "x²", "x/s", "°x", "xx"]
+    pre = rnd.choice(["NONE", "KILO", "MILLI"])
+    n_extra = rnd.randint(0, 3)
+    extra = " ".join('#[unit(Extra%d, "e%d", %s)]' % (i, i, rnd.choice(["10", "0.5", "1e3", "12.5", "1_000"])) for i in range(n_extra))
+    b1 = ['#[quantity]',
+          '#[ref_unit(Base_Unit, "%s", %s, "reference unit")]' % (rnd.choice(syms), pre),
+          ('#[unit(Big_One, "B1", %s)] ' % rnd.choice(["1000", "1000.", "1e3"])) + extra,
+          '#[unit(Inch, "in", 0.0254)]',
+          '/// generated base %d' % rnd.randint(0, 999),
+          'struct Len {}']
+    n2 = rnd.randint(0, 2)
+    b2 = ['#[quantity]',
+          '#[unit(Kelvin, "K", "kelvin")] ' + " ".join('#[unit(More%d, "m%d")]' % (i, i) for i in range(n2)),
+          '#[unit(Celsius, "°C")]',
+          'struct Temp {}']
+    b3_pre = ['#[quantity]', '#[ref_unit(Flop, "f", NONE)]', '#[unit(Kiloflop, "kf", KILO, %s)]' % rnd.choice(["1000.", "1e3", "1000"]), 'struct Foo {}', '',
+              '#[quantity]', '#[ref_unit(Emil, "e")]', '#[unit(Milliemil, "me", %s)]' % rnd.choice(["0.001", "1e-3"]), 'struct Bar {}', '']
+    b3 = ['#[quantity(Foo %s Bar)]' % rnd.choice(["*", "/"]),
+          '#[ref_unit(Bazoo, "b", NONE)]',
+          '#[unit(Millibazoo, "mb", MILLI, 0.001)]',
+          'struct Baz {}']
+    return b1, b2, b3_pre, b3
+
+
+def programs(bases=None, prefix=""):
     """[(name, source, (first, last) line range of the offending definition or None, expect_fail, defect class)]"""
     progs = []
+    B1, B2, B3_PRE, B3 = bases if bases else (globals()["B1"], globals()["B2"], globals()["B3_PRE"], globals()["B3"])
 
     def emit(name, pre, d, fail, cls):
         head = PRE.splitlines() + [""]
@@ -51,7 +79,7 @@ def programs():
         first = len(lines) + 1
         lines = lines + d
         last = len(lines)
-        progs.append((name, "\n".join(lines) + MAIN, (first, last), fail, cls))
+        progs.append((prefix + name, "\n".join(lines) + MAIN, (first, last), fail, cls))
     # compiling twins
     emit("ok_b1", [], B1, False, "twin")
     emit("ok_b2", [], B2, False, "twin")
@@ -199,6 +227,11 @@ def def_ranges(src):
 def run(ctx):
     d = witness.workdir("c12")
     progs = programs()
+    if ctx.tier == "thorough":
+        import random
+        for k in range(3):
+            rnd = random.Random(ctx.seed * 7919 + k)
+            progs += programs(variant_bases(rnd), prefix="v%d_" % k)
     uis = ui_programs()
     examples = {p[0]: p[1] for p in progs}
     for (name, src, exp) in uis:
@@ -244,8 +277,8 @@ def run(ctx):
                 ctx.ob("ui-expected-error", "%s/%d:%d" % (name, loc[0], loc[1]), bool(hit),
                        "the repository records an error at %d:%d (%r); none is reported there; got %s" % (
                            loc[0], loc[1], msg[:60], [(e[1].splitlines()[0][:60], e[3], e[4]) for e in errs][:3]), where, nontrivial=(code is None))
-    ctx.floor("compile-fail witnesses", n_fail, 60 + 13)
-    ctx.floor("compiling twins", n_pass, 4)
+    ctx.floor("compile-fail witnesses", n_fail, (60 + 13) if ctx.tier != "thorough" else (4 * 60 + 13))
+    ctx.floor("compiling twins", n_pass, 4 if ctx.tier != "thorough" else 16)
     ctx.extra["witness_dir"] = d
     ctx.rule_text = "one program per defect class x base definition, each type-checked on its own (cargo check --examples --keep-going); verdict = rustc error inside the offending definition; twins must compile"
     ctx.trusted = ["rustc / cargo diagnostics (JSON)", "the witness corpus is finite: malformed definitions outside it are not decided"]
